@@ -47,7 +47,7 @@ def build(env, baselines_per_suite, suites, full_bits):
     for ids in suites:
         kem, kdf, aead = ids
         for b in range(baselines_per_suite):
-            mode = (n + b) % 4
+            mode = n % 4
             n += 1
             s = cw.session(kem, kdf, aead, sid="c%d" % len(cw.sessions))
             il = rnd.choice([0, 1, 7, 20, 33, 300, 1000, 4097])
